@@ -484,6 +484,24 @@ var fillerStmts = []string{
 func (g *pGen) fillers(f *pFile, ind string, max int) {
 	for n := g.r.Intn(max + 1); n > 0; n-- {
 		g.uniq++
+		if g.r.Intn(6) == 0 {
+			// a block comment (or a raw string) that spans several lines: every newline inside it counts
+			k := 1 + g.r.Intn(3)
+			if g.r.Bool() {
+				f.add(ind + "/* a block comment")
+				for i := 0; i < k; i++ {
+					f.add(ind + " * over several lines")
+				}
+				f.add(ind + " */")
+			} else {
+				f.add(ind + fmt.Sprintf("w%d := `raw", g.uniq))
+				for i := 0; i < k; i++ {
+					f.add("string line")
+				}
+				f.add("end`")
+			}
+			continue
+		}
 		f.add(ind + strings.ReplaceAll(fillerStmts[g.r.Intn(len(fillerStmts))], "W", fmt.Sprintf("w%d", g.uniq)))
 	}
 }
@@ -602,6 +620,15 @@ func (g *pGen) failStmt(topLevel bool) string {
 		{"const-left-index", "const pk = \"s\"; y := pk[z + 9]"},
 		{"const-left-call", "const pk = 7; y := pk(z)"},
 		{"const-left-cmp", "const pk = 7; if pk < fns { z = 1 }"},
+		// the leftmost operand is an expression the optimizer folds into ONE literal, which must keep the
+		// position of the expression it replaces
+		{"fold-left-float", "y := 2.5 * 4.0 - fns"},
+		{"fold-left-int", "y := (2 + 3) - fns"},
+		{"fold-left-str", "y := (\"a\" + \"b\") - z"},
+		{"fold-left-unary", "y := (-(3)) - fns"},
+		{"fold-left-builtin", "y := len(\"ab\") - fns"},
+		{"fold-left-cond", "y := (1 > 2 ? 3 : 4.5) / fns"},
+		{"fold-left-uint-char", "y := (3u + 'a') - fns"},
 	}
 	k := kinds[g.r.Intn(len(kinds))]
 	g.mark("fail:" + k.key)
